@@ -433,6 +433,7 @@ register("C10", title="retried POST is not applied twice", pkg=".",
          env={"ROBUSTIRC_TESTING_ENABLE_PANIC_COMMAND": "1"},
          parts=[{"test": "^TestVerifC10$", "children": {"quick": 8, "thorough": 16}, "cases": {"quick": 40, "thorough": 6000}},
                 {"pkg": "./internal/ircserver", "test": "^TestVerifIRC$", "children": {"quick": 6, "thorough": 16}, "cases": {"quick": 150, "thorough": 3000}},
+                {"pkg": "./internal/api", "test": "^TestVerifC10Follower$", "children": {"quick": 4, "thorough": 16}, "cases": {"quick": 8, "thorough": 120}},
                 dict(MAIN_ENGINE),
                 {"test": "^TestVerifC07$", "children": {"quick": 4, "thorough": 8}, "cases": {"quick": 5, "thorough": 30}, "on_fatal": c07_on_fatal_other}],
          timeout={"quick": 400, "thorough": 2400}, level="exploration",
